@@ -43,5 +43,8 @@ CHECKS["C06"] = {"engine": "ref", "technique": _REF_TECH, "ref": "DESIGN.md sect
 CHECKS["C14"] = {"engine": "ref", "technique": _REF_TECH, "ref": "DESIGN.md section 5 (C14), section 4",
                  "text": "clean is treated as the library's compaction pass: after seeded sequences of content-preserving refinements and refused requests, knot_clean / degree_clean / clean (in seeded order and repetition, tolerances 0 / default / 1e-12) must preserve the function, reach the model's unique minimal representation (degree and every multiplicity), be idempotent, and bring two differently refined twins of one function to identical knots and control points.",
                  "note": _NOTE + " Rational cleaning is a listed known finding (F-C14-rational-clean); minimality is judged on polynomial curves in exact arithmetic."}
-PENDING = {k: "check under construction (planned engine, see DESIGN.md section 5); not claimed until it runs" for k in
-           ["C15"]}
+CHECKS["C15"] = {"engine": "curve", "technique": "deterministic simulation: seeded operation-and-fault histories over a world of aliased Curve objects with simulated point types (value-seam fault injection); consistency / failure-atomicity / non-interference invariants after every step",
+                 "ref": "DESIGN.md section 5 (C15), section 3.3",
+                 "text": "The core simulation target of this code base: histories of all public Curve operations over 1-6 curves created under seeded aliasing layouts (same KnotVector object, same point objects, copies), with invalid arguments from the statement's list and deterministic environment faults raised by simulated control-point types and user callables in the middle of operations. After every step: every curve is consistent and evaluable (I1), a raising operation left its receiver bit-identical (I2), non-mutating operations left their operands untouched (I3), every other curve of the world - aliases and originals of copies included - is unchanged (I4), and the caller's own containers and point objects are unchanged (I5).",
+                 "note": _NOTE}
+PENDING = {}
